@@ -40,7 +40,7 @@ def check(run):
     gm = getmap(p)
     disc = p.method('BaseConstraintDiscoverer', 'discover_field_constraints')
     gmap = GuardMap(disc.node)
-    discovery_table(run, p)
+    run.attempt(discovery_table, run, p)
     semantic_ok = all(o.ok for o in run.obs if o.rule == 'C07-DISCOVERY')
     # The structural rules below name the site of a problem.  THRESH, STRONG and ABSENT restate clauses that C07-DISCOVERY
     # has just decided by abstract execution; if one of them loses its anchor or disagrees while the execution holds, it
@@ -61,11 +61,11 @@ def check(run):
             del run.obs[before[0]:]
             del run.floors[before[1]:]
             run.note(rid, 'per-site analysis skipped (%s); the clause is decided by C07-DISCOVERY' % e, fn=disc)
-    agg(run, p)
+    run.attempt(agg, run, p)
     nocache_rule(run, 'C07-NOSHARED', p, ['tdda.constraints.db.drivers', 'tdda.constraints.db.constraints', 'tdda.constraints.baseconstraints'],
                  'statistics describe the table or frame at hand: no memoising decorator and no class-level container used as a cache in the '
                  'database handlers or the shared discovery/verification base (such a cache is keyed by name only and shared by every connection)')
-    dtypes(run, p)
+    run.attempt(dtypes, run, p)
     from .common import zero_rule
     STAT = {'get_min', 'get_max', 'get_min_length', 'get_max_length', 'get_nunique', 'get_null_count', 'get_non_null_count', 'get_nrecords',
             'calc_min', 'calc_max', 'calc_min_length', 'calc_max_length', 'calc_nunique', 'calc_null_count', 'calc_non_null_count',
@@ -388,22 +388,15 @@ def dtypes(run, p):
     run.floor('C07-DTYPES', n, 30)
 
 
-def discovery_table(run, p, rid='C07-DISCOVERY'):
-    """discover_field_constraints evaluated with a stand-in calculator over a grid of column summaries, against the
-    documented discovery rules (an independent oracle written here)."""
+def discovery_cases(p):
+    """discover_field_constraints evaluated over the grid of column summaries ->
+    [(summary dict, stand-in statistics, discovered FieldConstraints object or None, error text or None)]"""
     import itertools
     from ..pyeval import Interp, Obj, Unsupported, Raised
-    run.rule(rid, 'discovery emits exactly what the documentation says, for every combination of a grid of column summaries (type, '
-                  'number of records, nulls, distinct values, minimum and maximum in all six orderings around zero and null, the '
-                  'distinct strings): type always; nothing else for an empty dataset; max_nulls for 0 or 1 nulls; min / max when '
-                  'not null; the strongest true sign class (none for mixed signs or dates, "null" when there is no value); '
-                  'lengths and allowed values from the distinct strings (allowed values only up to 20 of them); no_duplicates '
-                  'when all non-null values are distinct, more than one, and the type is not real - decided by abstract '
-                  'execution of discover_field_constraints with stand-in statistics')
+    if getattr(p, '_discovery_cases', None) is not None:
+        return p._discovery_cases
     disc = p.method('BaseConstraintDiscoverer', 'discover_field_constraints')
-    maxcat = 20            # documented: allowed values for up to twenty distinct strings
-    n = 0
-    bad = []
+    out = []
     mm = [(1, 5), (0, 5), (0, 0), (-5, 0), (-5, -1), (-5, 5), (None, None)]
     strings = {3: ['ab', 'c', 'defg'], 20: ['s%02d' % i for i in range(20)], 21: ['t%02d' % i for i in range(21)], 1: ['only']}
     grid = []
@@ -439,34 +432,64 @@ def discovery_table(run, p, rid='C07-DISCOVERY'):
         inc_rex, rexes = False, None
         if m == 'rex':
             inc_rex, rexes, m, M = True, M, None, None
+        if type_ == 'date' and m is not None:
+            import datetime as _dt
+            m, M = (_dt.datetime(2001, 1, 1) + _dt.timedelta(days=m), _dt.datetime(2001, 1, 1) + _dt.timedelta(days=M))
+        stubs = {'calc_tdda_type': type_, 'get_nrecords': length_eff, 'calc_null_count': nnull_eff, 'calc_non_null_count': nnon_eff,
+                 'calc_nunique': nuniq, 'calc_min': m, 'calc_max': M, 'find_rexes': rexes,
+                 'calc_unique_values': list(vals) if vals else [],
+                 'calc_min_length': (min(len(v) for v in vals) if vals else None),
+                 'calc_max_length': (max(len(v) for v in vals) if vals else None)}
         I = Interp(p, consts={'unicode_string': str, 'byte_string': bytes, 'long_type': int})
+        I.safe_modules = {'datetime'}
 
-        def hook(mth, args, kwargs, selfobj, rexes=rexes, type_=type_, m=m, M=M, vals=vals, nuniq=nuniq, L=length_eff, NN=nnull_eff, NV=nnon_eff):
-            stubs = {'calc_tdda_type': type_, 'get_nrecords': L, 'calc_null_count': NN, 'calc_non_null_count': NV,
-                     'calc_nunique': nuniq, 'calc_min': m, 'calc_max': M, 'find_rexes': rexes,
-                     'calc_unique_values': list(vals) if vals else []}
+        def hook(mth, args, kwargs, selfobj, stubs=stubs):
             if mth.name in stubs:
                 return True, stubs[mth.name]
             if mth.name == 'is_null':
                 return True, args[0] is None
             if mth.name == 'native_definite':
                 return True, args[0]
-            if mth.name == 'calc_min_length':
-                return True, min(len(v) for v in vals) if vals else None
-            if mth.name == 'calc_max_length':
-                return True, max(len(v) for v in vals) if vals else None
             return False, None
         I.on_call = hook
         o = Obj(p.cls('BaseConstraintDiscoverer'))
         o.attrs.update(inc_rex=inc_rex, seed=None)
+        summary = dict(type=type_, records=length_eff, nulls=nnull_eff, non_nulls=nnon_eff, min=m, max=M, distinct=nuniq, values=vals,
+                       inc_rex=inc_rex, rexes=rexes)
         try:
             fc = I.call(disc, ['f'], selfobj=o)
+            out.append((summary, stubs, fc, None))
         except Raised as e:
-            bad.append(((type_, length_eff, nnull_eff, m, M, nuniq), 'raises %s' % e, None))
-            n += 1
-            continue
+            out.append((summary, stubs, None, 'raises %s' % e))
         except Unsupported as e:
             raise AnalysisError('discover_field_constraints is not evaluable: %s' % e)
+    p._discovery_cases = out
+    return out
+
+
+def discovery_table(run, p, rid='C07-DISCOVERY'):
+    """discover_field_constraints evaluated with a stand-in calculator over a grid of column summaries, against the
+    documented discovery rules (an independent oracle written here)."""
+    import itertools
+    from ..pyeval import Interp, Obj, Unsupported, Raised
+    run.rule(rid, 'discovery emits exactly what the documentation says, for every combination of a grid of column summaries (type, '
+                  'number of records, nulls, distinct values, minimum and maximum in all six orderings around zero and null, the '
+                  'distinct strings): type always; nothing else for an empty dataset; max_nulls for 0 or 1 nulls; min / max when '
+                  'not null; the strongest true sign class (none for mixed signs or dates, "null" when there is no value); '
+                  'lengths and allowed values from the distinct strings (allowed values only up to 20 of them); no_duplicates '
+                  'when all non-null values are distinct, more than one, and the type is not real - decided by abstract '
+                  'execution of discover_field_constraints with stand-in statistics')
+    disc = p.method('BaseConstraintDiscoverer', 'discover_field_constraints')
+    maxcat = 20            # documented: allowed values for up to twenty distinct strings
+    n = 0
+    bad = []
+    for summary, stubs, fc, err in discovery_cases(p):
+        type_, length_eff, nnull_eff, nnon_eff = summary['type'], summary['records'], summary['nulls'], summary['non_nulls']
+        m, M, nuniq, vals, inc_rex, rexes = summary['min'], summary['max'], summary['distinct'], summary['values'], summary['inc_rex'], summary['rexes']
+        if err:
+            bad.append(((type_, length_eff, nnull_eff, m, M, nuniq), err, None))
+            n += 1
+            continue
         n += 1
         got = None
         if isinstance(fc, Obj):
